@@ -87,4 +87,15 @@ ENTRIES = {
             "domain-less queries over live objects a second, independent holder of the same objects would go unnoticed; "
             "histories without such queries are checked fully. CPython 3.12.",
             "DESIGN.md section 3 C20"),
+    "C03": ("model_checking",
+            "stateless enumeration of ALL interleavings of iterator steps over real query objects that share nodes, isolated-run oracle",
+            "Nine scenarios of query objects sharing a query / a variable / a condition sub-expression / both variables / a "
+            "nested sub-query / the instance registry / a rule tree, over list and one-shot generator domains; for every "
+            "pair of per-iterator programs start.next^j.(drain|close|drop)[.start.drain] every interleaving of the two "
+            "programs' steps is executed on freshly built real queries (thorough adds three iterators with <=2 preemptions); "
+            "every evaluation must yield exactly what it yields alone on a fresh identical query (a prefix if abandoned). "
+            "A failing schedule is replayed on a second fresh build before it is believed.",
+            "Scenario family fixed (S1-S9, S10 thorough); 2-3 results per query; results compared as sequences of names. "
+            "Open finding C03-F3: overlapping evaluations of one rule query.",
+            "DESIGN.md section 3 C03"),
 }
